@@ -102,7 +102,10 @@ class Runner:
                 lines.append(G.run_line(b["prog"], d, N))
             lines.append(G.sym_line(b["prog"], N))
             meta.append(first)
-        out = ctx.driver("scope", lines)
+        st = {}
+        out = G.run_driver(lines, stats=st)
+        if st.get("skipped"):
+            ctx.count("skipped_model_did_not_finish", st["skipped"])
         for b, first in zip(batch, meta):
             self.judge_one(b, out[first:first + len(b["datas"]) + 1])
 
@@ -114,6 +117,8 @@ class Runner:
         case0 = {"prog": p, "src": src, "kind": b["kind"]}
         # ---- K-sym
         msym = outs[-1]
+        if msym is None or any(o is None for o in outs):
+            return      # the model did not finish on this program (see scope_gen.run_driver): skipped
         rsym, rroot = self.real_symbols(src, N)
         ctx.count("ksym")
         if rsym != msym or (rroot is not None and rroot != msym.split(" / ")[0]):
@@ -169,7 +174,9 @@ class Runner:
         for _, case, msym, rsym in sorted(getattr(self, "sym_mismatch", []), key=lambda t: t[0])[:5]:
             # the symbol tables differ: is the rendered output still what the rules say?
             N = G.Names()
-            line = ctx.driver("scope", [G.run_line(case["prog"], case["data"], N)])[0]
+            line = G.run_driver([G.run_line(case["prog"], case["data"], N)])[0]
+            if line is None:
+                continue
             f, s, rs, guards = G.parse_run(line, N)
             real = G.real_render(self.env, case["src"], case["data"])
             of = None
@@ -185,7 +192,7 @@ def setblock_filter_ksym(run_, ctx, rng):
     """K-sym for {% set x | default(args) %}body{% endset %} after some statements: the filter
     arguments are analysed in the block's frame (RootVisitor.visit_AssignBlock)."""
     cases, lines = [], []
-    for i in range(ctx.size(300, 5000)):
+    for i in range(ctx.size(300, 2000)):
         g = G.SGen(rng, size=rng.randint(2, 8))
         pre = g.program() if rng.random() < 0.6 else []
         body = g.program()
@@ -198,9 +205,11 @@ def setblock_filter_ksym(run_, ctx, rng):
                 + " ".join(G.s_sx(s, N) for s in pre) + ") (body " + " ".join(G.s_sx(s, N) for s in body) + "))")
         cases.append((src, N))
         lines.append(line)
-    out = ctx.driver("scope", lines)
+    out = G.run_driver(lines)
     bad = []
     for (src, N), msym in zip(cases, out):
+        if msym is None:
+            continue
         rsym, _ = run_.real_symbols(src, N)
         ctx.case(key=("setblock-filter", src))
         ctx.count("ksym_setblock_filter")
@@ -281,7 +290,7 @@ def run(ctx):
     ctx.proof("C03")
 
     size = ctx.size(12, 25)
-    nprog = ctx.size(1500, 40000)
+    nprog = ctx.size(1500, 12000)
     batch = []
     # hypothesis probes and the recorded witnesses
     for p, d in PROBES:
@@ -298,14 +307,14 @@ def run(ctx):
         batch.append({"prog": p, "datas": datas, "kind": "core" if feats else "full"})
     # deep nesting with pass-through scopes (a variable owned by an outer non-root scope, not mentioned
     # in between, conditionally assigned and read further inside)
-    for i in range(ctx.size(500, 12000)):
+    for i in range(ctx.size(500, 4000)):
         g = G.NGen(rng)
         p = g.program()
         datas = [g.data() for _ in range(2)]
         progs.append((p, datas))
         batch.append({"prog": p, "datas": datas, "kind": "nest"})
     # NFKC hypothesis-violating inputs inside the quantifier: rename two pool names onto an NFKC-equal pair
-    for i in range(ctx.size(60, 600)):
+    for i in range(ctx.size(60, 300)):
         p, datas = progs[rng.randrange(len(progs))]
         pair = rng.choice([("ﬁ", "fi"), ("µ", "μ"), ("ｂ", "b"), ("ⅰ", "i")])
         m = {"a": pair[0], "b": pair[1]}
@@ -315,7 +324,7 @@ def run(ctx):
     run_.flush()
     setblock_filter_ksym(run_, ctx, rng)
     # alpha-renaming metamorphic runs
-    for p, datas in progs[:ctx.size(400, 6000)]:
+    for p, datas in progs[:ctx.size(400, 2000)]:
         alpha_check(run_, ctx, p, datas[0], rng)
 
 
@@ -335,7 +344,10 @@ def replay(ctx, data):
     p = fix_pairs(tup(case["prog"]))
     d = case.get("data", {})
     N = G.Names()
-    line = ctx.driver("scope", [G.run_line(p, d, N), G.sym_line(p, N)])
+    line = G.run_driver([G.run_line(p, d, N), G.sym_line(p, N)], line_timeout=60)
+    if line[0] is None or line[1] is None:
+        print("replay: the model does not finish on this input")
+        return
     f, s, rs, guards = G.parse_run(line[0], N)
     src = G.p_src(p)
     real = G.real_render(run_.env, src, d)
